@@ -277,6 +277,38 @@ def _decoded_pgn(ctx, g):
     return None
 
 
+def ca_elem(obj):
+    """classify a receiver as an element of the stack's CA list:
+       ("all", None)        - iterates every CA (direct, through list()/tuple()/copy/slice, or by index over range(len))
+       ("filtered", conds)  - iterates a comprehension over the CA list with the given filter conditions (comp var = iter(_cas))
+       None                 - something else"""
+    CAS = field("_cas")
+
+    def whole(x):
+        if x == CAS:
+            return True
+        if x[0] == "call" and x[1][0] == "glob" and x[1][1] in ("list", "tuple", "reversed") and len(x[2]) == 1:
+            return x[1][1] != "reversed" and whole(x[2][0])
+        if x[0] == "call" and x[1][0] == "attr" and x[1][2] == "copy" and not x[2]:
+            return whole(x[1][1])
+        if x[0] == "sub" and x[2][0] == "slice" and x[2][1:] == (None, None, None):
+            return whole(x[1])
+        return False
+    if obj[0] == "iter":
+        src = obj[1]
+        if whole(src):
+            return ("all", None)
+        if src[0] == "comp" and len(src[2]) == 1 and whole(src[2][0][0]) and src[1][0] == "iter" and whole(src[1][1]):
+            return ("filtered", tuple(src[2][0][1])) if src[2][0][1] else ("all", None)
+        return None
+    if obj[0] == "sub" and whole(obj[1]) and obj[2][0] == "iter":
+        rng = obj[2][1]
+        if rng[0] == "call" and rng[1] == ("glob", "range") and len(rng[2]) == 1 and rng[2][0][0] == "call" and rng[2][0][1] == ("glob", "len") and \
+                len(rng[2][0][2]) == 1 and whole(rng[2][0][2][0]):
+            return ("all", None)
+    return None
+
+
 def req_dispatch(ctx, cls, rule="R-REQ-DISPATCH"):
     P = ctx.prog
     f = P.func(cls, "notify")
@@ -289,7 +321,11 @@ def req_dispatch(ctx, cls, rule="R-REQ-DISPATCH"):
                 inst = "%s.notify: request dispatched to every CA that accepts the destination" % cls
                 acc = ("call", ("attr", caobj, "message_acceptable"), (_dest_of(r),), ())
                 gl = lits(r.guards(i))
-                ok = (acc, True) in gl and caobj[0] == "iter" and contains(caobj[1], field("_cas"))
+                kind = ca_elem(caobj)
+                ok = kind is not None and kind[0] == "all" and (acc, True) in gl
+                if kind is not None and kind[0] == "filtered":
+                    # the list iterated is already restricted to the accepting CAs
+                    ok = kind[1] == (("call", ("attr", ("iter", field("_cas")), "message_acceptable"), (_dest_of(r),), ()),)
                 a = e.value[2]
                 okargs = len(a) >= 3 and a[0][0] == "call" and a[0][1] == ("clsref", "MessageId") and a[1] == _dest_of(r) and a[2] == ("p", "data")
                 if ok and okargs:
@@ -417,8 +453,15 @@ def filter_first(ctx, cls, rule="R-FILTER-FIRST"):
         gl = lits(ng)
         calls = [(i, e) for i, e in r.effects() if e.kind == "call" and mname(e.value) in handlers]
         is_global = (mk_cmp("==", dest, GLOBAL), True) in gl
-        acc_atoms = [x for g, _ in ng for x in walk(g) if x[0] == "call" and mname(x) in ("__ecu_is_message_acceptable", "message_acceptable")
-                     and x[2] == (dest,)]
+        def is_acc(x):
+            return x[0] == "call" and mname(x) in ("__ecu_is_message_acceptable", "message_acceptable") and x[2] == (dest,)
+        acc_atoms = []
+        for g, _ in ng:
+            for a in G.atoms(g):
+                if is_acc(a):
+                    acc_atoms.append(a)
+                elif a[0] == "call" and a[1] == ("glob", "any") and len(a[2]) == 1 and a[2][0][0] == "comp" and is_acc(a[2][0][1]):
+                    acc_atoms.append(a)     # any(ca.message_acceptable(dest) for ca in ...): some CA accepts
         if calls:
             n += 1
             i, e = calls[0]
@@ -669,7 +712,7 @@ def claim_bcast(ctx, cls, rule="R-CLAIM-BCAST"):
                 loop_i = max([j for j, rec in enumerate(r.recs[:i]) if rec.ev.kind == "for"] or [0])
                 inner = [rec for rec in r.recs[loop_i:i] if rec.cond is not None]
                 inst = "%s.notify: address-claimed frames reach every CA of the stack" % cls
-                if caobj[0] == "iter" and contains(caobj[1], field("_cas")) and not inner and e.value[2][1:2] == (("p", "data"),):
+                if ca_elem(caobj) == ("all", None) and not inner and e.value[2][1:2] == (("p", "data"),):
                     ctx.holds(rule, inst)
                 else:
                     ctx.violated(rule, f, inst, "address claims are filtered per CA or not passed the frame data", e.node)
